@@ -1089,12 +1089,18 @@ fn eq(lhs: &Value, rhs: &Value) -> StdResult<bool, (String, String, String)> {
                 return Ok(true);
             }
 
-            if lock_deref!(xs).len() != lock_deref!(ys).len() {
+            // We copy the items out of the locks before comparing them, so
+            // that no lock is held while recursing into items that may
+            // contain `xs` or `ys` themselves.
+            let xs = lock_deref!(xs).clone();
+            let ys = lock_deref!(ys).clone();
+
+            if xs.len() != ys.len() {
                 return Ok(false);
             }
 
-            for (i, x) in lock_deref!(xs).iter().enumerate() {
-                let y = &lock_deref!(ys)[i];
+            for (i, x) in xs.iter().enumerate() {
+                let y = &ys[i];
 
                 let equal =
                     match eq(&x.v, &y.v) {
@@ -1119,12 +1125,17 @@ fn eq(lhs: &Value, rhs: &Value) -> StdResult<bool, (String, String, String)> {
                 return Ok(true);
             }
 
-            if lock_deref!(xs).len() != lock_deref!(ys).len() {
+            // We copy the properties out of the locks before comparing them,
+            // so that no lock is held while recursing into properties that
+            // may contain `xs` or `ys` themselves.
+            let xs = lock_deref!(xs).clone();
+            let ys = lock_deref!(ys).clone();
+
+            if xs.len() != ys.len() {
                 return Ok(false);
             }
 
-            for (k, x) in &lock_deref!(xs) {
-                let ys = &lock_deref!(ys);
+            for (k, x) in &xs {
                 let y =
                     if let Some(y) = ys.get(k) {
                         y
